@@ -42,12 +42,13 @@ func genAnalysis() (string, string) {
 	lumaW := map[string]bool{"computeMBAlphaDCT": true, "computeMBAlphaDCTWorker": true}
 	uvW := map[string]bool{"computeMBUVAlphaDCT": true, "computeMBUVAlphaDCTWorker": true}
 	acc := map[string]bool{"uvAlphaSum": true, "localUVSum": true}
+	refusedBefore := len(refused) // other passes' refusals do not concern this one
 	for _, n := range []string{"computeAlphas", "computeAlphasSerial", "computeMBAlphaDCT", "computeMBAlphaDCTWorker", "computeMBUVAlphaDCT", "computeMBUVAlphaDCTWorker"} {
 		if funcs[n] == nil {
 			refuse("analysis: function %s not found in %s", n, rel)
 		}
 	}
-	if len(refused) > 0 {
+	if len(refused) > refusedBefore {
 		return "Analysis.v", "(* not generated *)\n"
 	}
 
